@@ -5,6 +5,12 @@ import (
 	"io"
 )
 
+// Progress is bumped whenever the harness hands bytes to the library (reader
+// chunks, Write calls).  The loop-progress monitor treats a change as
+// progress, so that consecutive calls that each see the same number of
+// remaining bytes are not mistaken for one idle loop.
+var Progress uint64
+
 // ErrSink is the sentinel a failing writer returns.
 var ErrSink = errors.New("verif: injected sink failure")
 
@@ -86,6 +92,7 @@ func (r *ChunkReader) Read(p []byte) (int, error) {
 	}
 	copy(p, r.Data[r.pos:r.pos+n])
 	r.pos += n
+	Progress++
 	if r.EOFWithData && r.pos >= len(r.Data) {
 		return n, io.EOF
 	}
